@@ -223,3 +223,94 @@ func verifControlRelock(destination Observer[int], sources []int) (func(), Teard
 	}
 }
 `
+
+// INNER-TERMINATED: an operator that feeds inner observables terminates them when it terminates.
+func ruleInnerTerminated() check.Rule {
+	return check.Rule{
+		Name:        "INNER-TERMINATED",
+		NeedControl: true,
+		Doc:         "in an operator that sends values to inner observers it handed downstream (the groups of GroupBy, the windows of WindowWhen), every error or completion callback of a source that sends the destination its terminal notification also sends a terminal notification to the inner observers (directly or through the local closures it calls): otherwise the outer subscriber learns that the stream ended while the consumer of the open window or group never receives a terminal and waits for ever",
+		Run: func(c *check.Ctx) {
+			n := 0
+			for _, sc := range c.M.SCs {
+				if !c.Armed(sc) && !check.IsControlName(sc.Name) {
+					continue
+				}
+				feedsInner := false
+				for _, e := range sc.Emits {
+					if !e.ToDest && e.Kind == model.EmitNext && e.Ctx != nil && e.Ctx.Kind == model.KSrc {
+						feedsInner = true
+					}
+				}
+				if !feedsInner || !destinationReceivesObservables(sc) {
+					continue
+				}
+				type slotKey struct {
+					ctx  *model.Ctx
+					slot int
+				}
+				destTerm := map[slotKey]*model.EmitSite{}
+				innerTerm := map[slotKey]bool{}
+				for _, e := range sc.Emits {
+					if e.Ctx == nil || e.Ctx.Kind != model.KSrc || e.Kind == model.EmitNext || (e.Slot != model.SlotError && e.Slot != model.SlotComplete) {
+						continue
+					}
+					k := slotKey{e.Ctx, e.Slot}
+					if e.ToDest {
+						if destTerm[k] == nil {
+							destTerm[k] = e
+						}
+					} else {
+						innerTerm[k] = true
+					}
+				}
+				for k, d := range destTerm {
+					n++
+					key := fmt.Sprintf("%s/%s/inner-terminated", sc, model.CtxKey(k.ctx, k.slot))
+					if innerTerm[k] {
+						if c.Armed(sc) {
+							c.OK(key, d.Pos, "the inner observers receive a terminal notification in this callback as well")
+						}
+					} else {
+						c.Report(c.Armed(sc), key, d.Pos, "this callback ends the output (%s to the destination) but sends no terminal notification to the inner observers the operator feeds: the consumer of the open window / group never learns that the stream ended", model.SlotNames[d.Kind])
+					}
+				}
+			}
+			c.Inc("inner_feeding_terminal_slots", n)
+		},
+	}
+}
+
+const controlsInnerTerminated = `
+func verifControlInnerNotTerminated[T any]() func(Observable[T]) Observable[Observable[T]] {
+	return func(source Observable[T]) Observable[Observable[T]] {
+		return NewUnsafeObservableWithContext(func(subscriberCtx context.Context, destination Observer[Observable[T]]) Teardown {
+			inner := NewUnicastSubject[T](16)
+			destination.NextWithContext(subscriberCtx, inner)
+			sub := source.SubscribeWithContext(subscriberCtx, NewObserverWithContext(
+				inner.NextWithContext,
+				destination.ErrorWithContext,
+				func(ctx context.Context) {
+					inner.CompleteWithContext(ctx)
+					destination.CompleteWithContext(ctx)
+				}))
+			return sub.Unsubscribe
+		})
+	}
+}
+`
+
+// destinationReceivesObservables: the subscribe closure's destination is an Observer[Observable[…]] — the operator hands
+// inner observables downstream (GroupBy, WindowWhen), as opposed to one that feeds a subject its destination is
+// subscribed to (Share).
+func destinationReceivesObservables(sc *model.SC) bool {
+	if sc.Dest == nil {
+		return false
+	}
+	n, ok := sc.Dest.Type().(*types.Named)
+	if !ok || n.TypeArgs() == nil || n.TypeArgs().Len() != 1 {
+		return false
+	}
+	a, ok := n.TypeArgs().At(0).(*types.Named)
+	return ok && a.Obj().Name() == "Observable"
+}
